@@ -45,6 +45,8 @@ type Cmt struct {
 	Blocks   map[int64]*DecidedBlock
 	Halted   string
 	Undecided int
+	Recent   map[string]int64 // validators that left the set: address -> last height they were in it
+	RecentPower map[string]int64
 	// validator updates accumulated from genesis, for C13
 	AccPower map[string]int64
 }
@@ -108,6 +110,7 @@ type CrashSpec struct {
 }
 
 type EvidenceSpec struct {
+	Addr      string `json:"addr,omitempty"` // hex address of a validator that is not (any more) in the set; overrides Val
 	Val       int   `json:"val"` // index into the current validator set
 	AgeBlocks int64 `json:"age_blocks"`
 	AgeSec    int64 `json:"age_sec"`
@@ -383,6 +386,15 @@ func (c *Cmt) applyValidatorUpdates(b *DecidedBlock, ups []abci.ValidatorUpdate)
 		}
 	}
 	next.IncrementProposerPriority(1)
+	if c.Recent == nil {
+		c.Recent, c.RecentPower = map[string]int64{}, map[string]int64{}
+	}
+	for _, v := range c.Vals.Validators {
+		if !next.HasAddress(v.Address) {
+			c.Recent[string(v.Address)] = b.Height + 1
+			c.RecentPower[string(v.Address)] = v.VotingPower
+		}
+	}
 	c.LastVals = c.Vals
 	c.Vals = c.NextVals
 	c.NextVals = next
